@@ -223,6 +223,31 @@ pub fn run(prop: &str, tier: &str, replay: Option<&str>) -> i32 {
         });
         rep.add(sec);
     }
+    // 3b. remote key pairs have no private-key DER (serialize_der refuses by panicking, as documented): the PEM
+    // accessor must not hand out an envelope of anything else; the public-key PEM is the envelope of the public DER
+    {
+        let algs = backend_algs();
+        let sec = Section::new("sweep/remote-key-pem", "a remote key pair of every algorithm: public_key_pem is the strict envelope of public_key_der; serialize_pem returns a text only if serialize_der returns bytes, and then envelopes exactly them");
+        run::sweep_cases(&sec, &algs, &|a| format!("remote {}", a.name()), &|a| {
+            let mut out = Outcome::default();
+            let raw = fake_pub(*a, 0x33);
+            let (kp, _log) = stub_key(*a, &raw);
+            let pub_pem = kp.public_key_pem();
+            check_pem("public key (remote)", &pub_pem, "PUBLIC KEY", &kp.public_key_der(), &mut out.findings);
+            let der = guarded(|| kp.serialize_der());
+            let pem = guarded(|| kp.serialize_pem());
+            match (&der, &pem) {
+                (Err(_), Err(_)) => {}
+                (Ok(d), Ok(t)) => check_pem("private key (remote)", t, "PRIVATE KEY", d, &mut out.findings),
+                (Err(_), Ok(t)) => out.findings.push(Finding::new("PEM-BYTES", "private key (remote)", format!("serialize_der refuses but serialize_pem returns {:?}", t.chars().take(80).collect::<String>()))),
+                (Ok(_), Err(p)) => out.findings.push(Finding::new("PEM-LOADER", "private key (remote)", format!("serialize_der returns bytes but serialize_pem panics: {}", p))),
+            }
+            out.digest = fnv(pub_pem.as_bytes());
+            out.transitions = 3;
+            out
+        });
+        rep.add(sec);
+    }
     // 4. large artefacts (multi-kilobyte)
     {
         let big: Vec<usize> = if thorough { vec![10, 50, 200, 1000] } else { vec![10, 200] };
